@@ -3292,8 +3292,10 @@ dbus_connection_send_preallocated (DBusConnection       *connection,
     {
       /* Refuse to send fds on a connection that cannot handle
          them. Unfortunately we cannot return a proper error here, so
-         the best we can is just return. */
+         the best we can is just return. The preallocated resources
+         are ours to dispose of either way. */
       CONNECTION_UNLOCK (connection);
+      dbus_connection_free_preallocated_send (connection, preallocated);
       return;
     }
 
